@@ -316,6 +316,11 @@ var trafficSets = []*ConvSet{
 	{Name: "snap-lastack", Huge: true, Step: time.Millisecond, Interleaves: []string{"wrap:9"}, Convs: withFiller(
 		// both FINs are seen before the filler, only the last ACK of the close follows it
 		tcp("t", "10.0.0.1", 40000, "10.0.0.2", 80, 1000, 5000, "fin-c", cm("GET"), sm("resp"), cm("ok")))},
+	// seven datagrams of the observed flow lie around the 100000th packet of the big capture, so one
+	// of them carries exactly the timestamp of the snapshot that import writes; the flow continues in
+	// the next capture
+	{Name: "snap-trigger", Huge: true, Step: time.Millisecond, Interleaves: []string{"mid:1:99995:7"}, Convs: withFiller(
+		udp("u", "10.0.1.1", 5354, "10.0.1.2", 53, cm("d0"), sm("d1"), cm("d2"), sm("d3"), cm("d4"), sm("d5"), cm("d6"), sm("d7"), cm("d8"), sm("d9")))},
 	{Name: "snap-udp-mid", Huge: true, Step: time.Millisecond, Interleaves: []string{"wrap:2"}, Convs: withFiller(
 		udp("u", "10.0.1.1", 5353, "10.0.1.2", 53, cm("qry"), sm("answ"), cm("q2"), sm("a2")))},
 }
@@ -537,6 +542,23 @@ func interleave(lists [][]*Pkt, pattern string) ([]*Pkt, error) {
 			out = append(out, l...)
 		}
 		out = append(out, lists[0][k:]...)
+	case strings.HasPrefix(pattern, "mid:"):
+		// first k packets of flow 0, then pos packets of the other flows, then n packets of flow 0,
+		// then the remaining packets of the other flows, then the rest of flow 0
+		k, pos, n := 0, 0, 0
+		fmt.Sscanf(pattern, "mid:%d:%d:%d", &k, &pos, &n)
+		var others []*Pkt
+		for _, l := range lists[1:] {
+			others = append(others, l...)
+		}
+		if k+n > len(lists[0]) || pos > len(others) {
+			return nil, fmt.Errorf("interleave %s: flow 0 has %d packets, the others %d", pattern, len(lists[0]), len(others))
+		}
+		out = append(out, lists[0][:k]...)
+		out = append(out, others[:pos]...)
+		out = append(out, lists[0][k:k+n]...)
+		out = append(out, others[pos:]...)
+		out = append(out, lists[0][k+n:]...)
 	default:
 		return nil, fmt.Errorf("unknown interleaving %q", pattern)
 	}
@@ -966,6 +988,11 @@ func SnapshotCuts(set *ConvSet) ([]int, error) {
 	}
 	k := -1
 	fmt.Sscanf(set.Interleaves[0], "wrap:%d", &k)
+	if strings.HasPrefix(set.Interleaves[0], "mid:") {
+		mk, pos, mn := 0, 0, 0
+		fmt.Sscanf(set.Interleaves[0], "mid:%d:%d:%d", &mk, &pos, &mn)
+		return []int{mk, mk + FillerConns*9 + mn}, nil
+	}
 	if k < 0 {
 		return nil, fmt.Errorf("%s: interleaving %q", set.Name, set.Interleaves[0])
 	}
